@@ -20,3 +20,21 @@ prop(
     trusted=["f64-free: C11 is integer arithmetic only; the virtual counter (hook H4) replaces rdtsc in the precision cases"],
     assumptions=["real hardware counters are not modelled: the precision clause is checked on scripted/uniform virtual clocks"],
 )
+
+prop(
+    "C10",
+    ["DivanModel.Props.C10"],
+    [lab("alloc", 3000, 60000)],
+    level_text="Unbounded theorems about the Lean model of tally_alloc/tally_dealloc/tally_realloc: for every operation sequence from a cleared tally the per-kind counts and byte sums are exact (|new-old| for reallocs, equal sizes = grow of 0), max_count/max_size equal the maximum over all prefixes (empty one included) of live allocations / live bytes, and operations on other threads leave a thread's tally untouched. Tied to the code by the `alloc` lab: direct tally arithmetic, 1-8 threads allocating concurrently through AllocProfiler<Mock>, and request scripts through the GlobalAlloc methods.",
+    level_note="Trusted: Lean kernel; the lab and its mock allocator; sizes stay in the documented no-overflow range (running sums < 2^62), outside it the tally segment is not compared. thread_local! slot semantics are Rust's.",
+    assumptions=["no 64-bit overflow of the running figures (the code documents that it does not check)"],
+)
+
+prop(
+    "C09",
+    ["DivanModel.Props.C09"],
+    [lab("alloc", 3000, 60000)],
+    level_text="Model-level theorems (forwarded request = incoming request, returned value = wrapped allocator's answer, independent of tally state and slot availability, for every request and answer) plus a differential lab that issues request scripts to AllocProfiler<Mock> through the four GlobalAlloc methods on the main thread, on fresh threads and inside TLS destructors of exiting threads; the mock logs what reaches it, answers with scripted values incl. null, and counts extra calls and re-entrancy.",
+    level_note="Trusted: Lean kernel; the mock allocator and lab. 'Never allocates' is observed (no extra inner call, re-entrancy depth <= 1), not proved; the macOS pthread-key path is not compiled on this platform.",
+    assumptions=["Linux thread_local! path only (macOS path not compiled here)"],
+)
